@@ -619,6 +619,9 @@ func (a *MaxValueArg) Parse() error {
 type argRb struct {
 	Min, Max   bool
 	Start, End string
+	// A part that is the keyword alone, "max" (or "min"), is the single
+	// value max (or min): its start (or end) is the keyword as well
+	StartMax, EndMin bool
 }
 
 type RangeArgBdrySlice []argRb
@@ -673,8 +676,10 @@ func (a *RangeArg) Parse() error {
 			switch rbs[0] {
 			case "max":
 				r.Max = true
+				r.StartMax = true
 			case "min":
 				r.Min = true
+				r.EndMin = true
 			default:
 				if !rangeBoundaryOK(rbs[0]) {
 					return ErrInval
@@ -712,6 +717,8 @@ func (a *RangeArg) Parse() error {
 type Lb struct {
 	Min, Max   bool
 	Start, End uint64
+	// See argRb
+	StartMax, EndMin bool
 }
 
 type LengthArg struct {
@@ -742,8 +749,10 @@ func (a *LengthArg) Parse() error {
 			switch bs[0] {
 			case "max":
 				l.Max = true
+				l.StartMax = true
 			case "min":
 				l.Min = true
+				l.EndMin = true
 			default:
 				i, e := parseDecimal(bs[0], 64)
 				if e != nil {
